@@ -623,7 +623,6 @@ End SatTx.
 Section SatChain.
 Variable cfg : config.
 Hypothesis HS : c_sats cfg = true.
-Hypothesis HF0 : c_first cfg = 0.
 
 Definition tx_ok3 (t : tx) : Prop := tx_plain t /\ ins_real t /\ t_id t <> 0.
 Definition block_ok3 (blk : block) : Prop :=
@@ -650,6 +649,48 @@ Proof.
     split; [exact I2|]. split; [exact L2|]. split; [exact N2|]. rewrite Q2. exact Hl.
 Qed.
 
+Lemma index_tx_noinsc_sat : forall h (first : bool) t b b' L,
+  EntInv (s_entries (b_st b)) (s_utxo (b_st b)) [] -> KeyU (s_entries (b_st b)) (s_utxo (b_st b)) ->
+  NullR (s_utxo (b_st b)) L -> (first = false -> tx_plain t) -> t_id t <> 0 ->
+  index_tx cfg h false first t b = Ok b' ->
+  s_entries (b_st b') = s_entries (b_st b) /\ b_next b' = b_next b /\
+  EntInv (s_entries (b_st b')) (s_utxo (b_st b')) [] /\ KeyU (s_entries (b_st b')) (s_utxo (b_st b')) /\
+  NullR (s_utxo (b_st b')) L.
+Proof.
+  intros h first t b b' L HE HK HN HP Hz H. unfold index_tx in H. rewrite HS in H.
+  dbind H. destruct a as [ents utxo1]. rename E into ET.
+  dbind H. destruct a as [[per_out in_ranges] b1]. dbind E. destruct a as [po lft]. inv H.
+  assert (Hb1 : b_st b1 = b_st b /\ b_next b1 = b_next b) by (destruct first; inv E; auto).
+  destruct Hb1 as [Q1 Q2]. unfold set_st, with_utxo. cbn [b_st b_next s_entries s_utxo]. rewrite Q2.
+  assert (HT : (forall op u, tgP op utxo1 = Some u -> tgP op (s_utxo (b_st b)) = Some u) /\
+               tgP null_op utxo1 = tgP null_op (s_utxo (b_st b))).
+  { destruct first.
+    - inv ET. auto.
+    - destruct (take_inputs_tg _ _ _ _ ET) as (_ & T2 & T3). split; auto. apply T3.
+      intro Hin0. specialize (HP eq_refl). unfold tx_plain in HP. rewrite forallb_forall in HP. specialize (HP _ Hin0). discriminate. }
+  destruct HT as [T2 T3].
+  split; [reflexivity|]. split; [reflexivity|]. split; [|split].
+  - intros op u Hu Hne s off Hp. apply put_outputs_tg in Hu. destruct Hu as [[_ Hu]|Hu]; [rewrite Hu in Hp; destruct Hp|]. eapply HE; eauto.
+  - intros op u s off Hu Hp. apply put_outputs_tg in Hu. destruct Hu as [[_ Hu]|Hu]; [rewrite Hu in Hp; destruct Hp|]. eapply HK; eauto.
+  - unfold NullR, entry_at in *. rewrite put_outputs_tg_other by (cbn; auto). rewrite T3. exact HN.
+Qed.
+
+Lemma index_txs_noinsc_sat : forall h l b b' L,
+  EntInv (s_entries (b_st b)) (s_utxo (b_st b)) [] -> KeyU (s_entries (b_st b)) (s_utxo (b_st b)) ->
+  NullR (s_utxo (b_st b)) L -> Forall tx_ok3 l ->
+  index_txs cfg h false l b = Ok b' ->
+  s_entries (b_st b') = s_entries (b_st b) /\ b_next b' = b_next b /\
+  EntInv (s_entries (b_st b')) (s_utxo (b_st b')) [] /\ KeyU (s_entries (b_st b')) (s_utxo (b_st b')) /\
+  NullR (s_utxo (b_st b')) L.
+Proof.
+  intros h l. induction l as [|t r IH]; intros b b' L HE HK HN HF H; cbn [index_txs] in H.
+  - inv H. auto.
+  - dbind H. apply Forall_cons_iff in HF. destruct HF as [(F1 & F2 & F3) HF2].
+    destruct (index_tx_noinsc_sat h false t b a L HE HK HN (fun _ => F1) F3 E) as (A1 & A2 & A3 & A4 & A5).
+    destruct (IH _ _ _ A3 A4 A5 HF2 H) as (B1 & B2 & B3 & B4 & B5).
+    split; [congruence|]. split; [congruence|]. auto.
+Qed.
+
 Lemma subsidy_zero : forall h, (0 <? subsidy h) = false -> subsidy h = 0.
 Proof. intros h H. destruct (N.ltb_spec 0 (subsidy h)); [discriminate|lia]. Qed.
 
@@ -658,25 +699,40 @@ Lemma index_block_sat : forall h blk st st',
 Proof.
   intros h blk st st' [SD SE SK SO SN] BO H.
   pose proof (index_block_off cfg _ _ _ _ SO H) as HOff'.
-  unfold index_block in H. rewrite HS, HF0 in H.
-  replace (0 <=? h) with true in H by (symmetry; apply N.leb_le; lia). cbv iota in H.
+  unfold index_block in H. rewrite HS in H.
   dbind H. rename a into cb. dbind H. rename a into b1. dbind H. rename a into b2. inv H.
   match type of E0 with index_txs _ _ _ _ ?B = _ => set (b0 := B) in * end.
   assert (HC0 : ranges_size cb = subsidy h).
   { destruct (0 <? subsidy h) eqn:Q.
     - dbind E. inv E. cbn. lia.
     - inv E. cbn. symmetry. apply subsidy_zero. exact Q. }
-  assert (I0 : SI cfg b0).
-  { subst b0. split; cbn; auto. intros f s []. }
   assert (HX : DomIff (b_next b2) (s_entries (b_st b2)) /\
                EntInv (s_entries (b_st b2)) (s_utxo (b_st b2)) (b_lost_ranges b2) /\
                KeyU (s_entries (b_st b2)) (s_utxo (b_st b2)) /\ NullR (s_utxo (b_st b2)) (s_lost st)).
-  { destruct blk as [|t0 r].
-    - cbn [tl] in E0. cbn in E0. inv E0. inv E1. subst b0. cbn. auto.
-    - cbn [tl] in E0. destruct BO as [[B1 B2] B3].
-      destruct (index_txs_sat h r b0 b1 I0) as (I1 & L1 & N1 & Q1); auto.
-      destruct (index_tx_sat_cb cfg HS h t0 b1 b2 I1 L1 N1 B1 B2 E1) as (D2 & E2 & K2 & _ & N2).
-      rewrite Q1 in N2. subst b0. cbn [b_lost] in N2. auto. }
+  { destruct (c_first cfg <=? h) eqn:INS.
+    - assert (I0 : SI cfg b0).
+      { subst b0. split; cbn; auto. intros f s []. }
+      destruct blk as [|t0 r].
+      + cbn [tl] in E0. cbn in E0. inv E0. inv E1. subst b0. cbn. auto.
+      + cbn [tl] in E0. destruct BO as [[B1 B2] B3].
+        destruct (index_txs_sat h r b0 b1 I0) as (I1 & L1 & N1 & Q1); auto.
+        destruct (index_tx_sat_cb cfg HS h t0 b1 b2 I1 L1 N1 B1 B2 E1) as (D2 & E2 & K2 & _ & N2).
+        rewrite Q1 in N2. subst b0. cbn [b_lost] in N2. auto.
+    - assert (HE0 : EntInv (s_entries (b_st b0)) (s_utxo (b_st b0)) []) by (subst b0; exact SE).
+      assert (HK0 : KeyU (s_entries (b_st b0)) (s_utxo (b_st b0))) by (subst b0; exact SK).
+      assert (HN0 : NullR (s_utxo (b_st b0)) (s_lost st)) by (subst b0; exact SN).
+      assert (Fin : s_entries (b_st b2) = s_entries st /\ b_next b2 = next_seq_of (s_entries st) /\
+                    EntInv (s_entries (b_st b2)) (s_utxo (b_st b2)) [] /\ KeyU (s_entries (b_st b2)) (s_utxo (b_st b2)) /\
+                    NullR (s_utxo (b_st b2)) (s_lost st)).
+      { destruct blk as [|t0 r].
+        - cbn [tl] in E0. cbn in E0. inv E0. inv E1. subst b0. cbn. auto.
+        - cbn [tl] in E0. destruct BO as [[B1 B2] B3].
+          destruct (index_txs_noinsc_sat h r b0 b1 _ HE0 HK0 HN0 B3 E0) as (A1 & A2 & A3 & A4 & A5).
+          assert (HPf : true = false -> tx_plain t0) by discriminate.
+          destruct (index_tx_noinsc_sat h true t0 b1 b2 _ A3 A4 A5 HPf B2 E1) as (C1 & C2 & C3 & C4 & C5).
+          subst b0. cbn [b_st b_next] in *. split; [congruence|]. split; [congruence|]. auto. }
+      destruct Fin as (F1 & F2 & F3 & F4 & F5). rewrite F1, F2 in *. split; [exact SD|]. split; [|auto].
+      rewrite <- F1. apply EntInv_mono. rewrite F1. exact F3. }
   destruct HX as (D2 & E2 & K2 & N2).
   assert (Hnx : next_seq_of (s_entries (b_st b2)) = b_next b2) by (apply next_seq_of_dom; exact D2).
   split; cbn [s_entries s_utxo s_lost]; rewrite ?Hnx; auto.
